@@ -39,6 +39,27 @@ def ownership(facts, rep):
                     out.append('buffer')
             return out
         M = Must(f, gen_stmt=gen_stmt, kill_stmt=kill_stmt)
+        # one buffer per key: the key node keeps a view into the decode buffer, so the buffer a key is decoded into
+        # must have been obtained since the previous key was handed to the handler
+        def kill2(s):
+            out = list(kill_stmt(s))
+            for e in walk(s):
+                if e.get('k') == 'call' and e.get('cname') == 'Key':
+                    out.append('buffer')
+            return out
+        M2 = Must(f, gen_stmt=gen_stmt, kill_stmt=kill2)
+        for bid, i, s, e in f.walk():
+            if e.get('k') == 'call' and e.get('cname') == 'parseStringInplace':
+                st = M2.at(bid, i)
+                if st is None:
+                    continue
+                key = ('decode', locline(e['loc']))
+                if key in seen:
+                    continue
+                seen.add(key)
+                n += 1
+                rep.check('buffer' in st, 'E2.key-ownership', f.qn, 'decode into a buffer obtained for this key: %s' % show(e)[:50], locline(e['loc']),
+                          'every escaped key is decoded into its own allocation (earlier key nodes still view theirs)', facts.config)
         for bid, i, s, e in f.walk():
             key = (show(e)[:60], locline(e.get('loc', '?')))
             # the key event receives the ownership flag: flag set <=> a buffer is live
